@@ -337,28 +337,26 @@ theorem C04_cfdp_front_accept_implies_crc (d : Bytes) (h : PduHeader) (ha : pduF
     h.packetLen = cfdpDeclaredLen d ∧ cfdpDeclaredLen d ≤ d.length ∧ crc16 (d.take (cfdpDeclaredLen d)) = 0 :=
   front_accept_crc ha hc
 
-/-- **burst rejection, strongest form**: take ANY buffer the front accepts as a CRC-flagged PDU and
-    corrupt it by any admissible burst inside the declared PDU that avoids octets 0–3. Then the
+/-- **burst rejection at the common front**: take ANY buffer the front accepts as a CRC-flagged PDU
+    and corrupt it by any admissible burst inside the declared PDU that avoids octets 0–3. Then the
     header still decodes to the same lengths and flag, `verify_length_and_checksum` raises
-    `InvalidCrc`, hence every decoder built on the front — whatever it does afterwards with the body —
-    fails with `InvalidCrc` and returns no object; likewise the file-directive front. -/
+    `InvalidCrc`, and so do the plain front and the file-directive front. (What this means for the
+    eight PDU decoders the driver executes is stated per decoder in `Props/C04Pdu.lean`; the former
+    conjuncts "every `front >>= body` fails" were instances of `error >>= f = error` for an
+    arbitrary `f` and have been dropped — `Proofs/CfdpCrcAccept.front_bind_error` keeps the fact as
+    a lemma.) -/
 theorem C04_cfdp_burst_rejected_of_accepted (d d' : Bytes) (h : PduHeader) (k : Nat) (B : List Bool)
     (ha : pduFront d = .ok h) (hc : cfdpCrcFlag d = 1) (hb : Burst d d' k B) (hp : Pattern B)
     (hin : k + B.length ≤ 8 * cfdpDeclaredLen d) (hav : AvoidsFixedHeader k) :
     (∃ h', PduHeader.unpack d' = .ok h' ∧ h'.packetLen = h.packetLen ∧ h'.conf.crcFlag = 1 ∧
         h'.verifyLengthAndChecksum d' = .error .crc) ∧
     pduFront d' = .error .crc ∧
-    (∀ (α : Type) (body : PduHeader → Py α), (pduFront d' >>= body) = .error .crc) ∧
-    (∀ c, directiveFront d = .ok (h, c) → directiveFront d' = .error .crc ∧
-        ∀ (α : Type) (body : PduHeader × Nat → Py α), (directiveFront d' >>= body) = .error .crc) ∧
+    (∀ c, directiveFront d = .ok (h, c) → directiveFront d' = .error .crc) ∧
     cfdpDeclaredLen d' = cfdpDeclaredLen d ∧ crc16 (d'.take (cfdpDeclaredLen d')) ≠ 0 := by
   obtain ⟨h', hu', e1, _, e3, hv', hne⟩ := burst_verify_crc ha hc hb hp.1 hp.2 hin hav
   have hfr := burst_front_crc ha hc hb hp.1 hp.2 hin hav
-  refine ⟨⟨h', hu', e1, e3, hv'⟩, hfr, fun α body => front_bind_error hfr body, ?_,
+  exact ⟨⟨h', hu', e1, e3, hv'⟩, hfr, fun c hd => burst_directiveFront_crc hd hc hb hp.1 hp.2 hin hav,
     (fixed_congr (burst_fixed hb hav)).2.1, hne⟩
-  intro c hd
-  have := burst_directiveFront_crc hd hc hb hp.1 hp.2 hin hav
-  exact ⟨this, fun α body => by rw [this]; rfl⟩
 
 /-- **burst rejection for packed CRC-flagged PDUs** (the statement of the property at the level of
     the common front): valid header, any body, the framed PDU `p` followed by any `rest`, every
@@ -367,16 +365,14 @@ theorem C04_cfdp_burst_rejected (h : PduHeader) (wf : C05.WF h) (body p rest d' 
     (hc : h.conf.crcFlag = 1) (hl : h.dataFieldLen = body.length + 2) (hf : framePdu h body = .ok p)
     (hb : Burst (p ++ rest) d' k B) (hp : Pattern B) (hin : k + B.length ≤ 8 * p.length)
     (hav : AvoidsFixedHeader k) :
-    pduFront d' = .error .crc ∧
-    (∀ (α : Type) (dec : PduHeader → Py α), (pduFront d' >>= dec) = .error .crc) ∧
-    crc16 (d'.take p.length) ≠ 0 := by
+    pduFront d' = .error .crc ∧ crc16 (d'.take p.length) ≠ 0 := by
   obtain ⟨p0, hf0, _, _, hfr, hdl, hcf⟩ := C04_cfdp_valid_passes h wf body rest hc hl
   have : p0 = p := Except.ok.inj (hf0.symm.trans hf)
   subst this
-  obtain ⟨_, h2, h3, _, h5, h6⟩ :=
+  obtain ⟨_, h2, _, h5, h6⟩ :=
     C04_cfdp_burst_rejected_of_accepted _ d' h k B hfr hcf hb hp (by rw [hdl]; exact hin) hav
   rw [h5, hdl] at h6
-  exact ⟨h2, h3, h6⟩
+  exact ⟨h2, h6⟩
 
 /-- the PDU alone, corrupted by `flipBurst`: what the fault enumeration runs against the real classes -/
 theorem C04_cfdp_flip_rejected (h : PduHeader) (wf : C05.WF h) (body p : Bytes) (k : Nat) (B : List Bool)
@@ -385,7 +381,7 @@ theorem C04_cfdp_flip_rejected (h : PduHeader) (wf : C05.WF h) (body p : Bytes) 
     pduFront (flipBurst p k B) = .error .crc ∧ crc16 (flipBurst p k B) ≠ 0 := by
   have hb : Burst (p ++ []) (flipBurst p k B) k B := by
     rw [List.append_nil]; exact flipBurst_spec p k B hin
-  obtain ⟨h1, _, h3⟩ := C04_cfdp_burst_rejected h wf body p [] _ k B hc hl hf hb hp hin hav
+  obtain ⟨h1, h3⟩ := C04_cfdp_burst_rejected h wf body p [] _ k B hc hl hf hb hp hin hav
   rw [← flipBurst_length p k B, List.take_length] at h3
   exact ⟨h1, h3⟩
 
